@@ -334,7 +334,14 @@ def run(ctx):
     r3.check([n.attrs.get("id") for n in out] == ["cities"], "_generate_instances[two selects, one file]", "the shared file is declared once", gi.loc(), why_fail=repr([n.attrs for n in out]))
     ve = scls.methods["_validate_external_instances"]
     it = ctx.interp("C09.R3")
-    for desc, lst, expect in (("unique", [info("x", "u", "external"), info("y", "v", "external")], False), ("duplicate", [info("x", "u", "external"), info("x", "u", "external")], True)):
+    import itertools as _itv
+    ve_cases = [("unique", [info("x", "u", "external"), info("y", "v", "external")], False), ("duplicate", [info("x", "u", "external"), info("x", "u", "external")], True)]
+    # every order of {x, x, y, z}: the duplicate is found wherever the two rows are on the sheet (also with other
+    # external instances between them), and also when the rows come as a generator
+    for perm in sorted(set(_itv.permutations(("x", "x", "y", "z")))):
+        ve_cases.append((f"duplicate in sheet order {'-'.join(perm)}", [info(nm_, "jr://file/" + nm_ + ".xml", "external") for nm_ in perm], True))
+    ve_cases.append(("three distinct in any order", [info(nm_, "u", "external") for nm_ in ("z", "x", "y")], False))
+    for desc, lst, expect in ve_cases:
         it.reset([])
         try:
             it.call_function(ve, [lst], {}, None, ve.node)
